@@ -1,4 +1,9 @@
 import Hannibal.Props.C04Current
+import Hannibal.Props.C04QCurrent
 #print axioms Hannibal.C04_holds
 #print axioms Hannibal.C04_current
 #print axioms Hannibal.wellWired04_current
+#print axioms Hannibal.C04q_holds
+#print axioms Hannibal.C04q_current
+#print axioms Hannibal.wellWired04q_current
+#print axioms Hannibal.monC04q_step
